@@ -812,7 +812,16 @@ def check(ctx):
                 for conds, sv in ev.fn_paths(f):
                     vs = [l for l in leaves(sv) if l[0] == "var"]
                     r4.ok("%s::visit_custom -> %s" % (owner, render(sv)))
-    r4.require_floor(2, "custom fall-through facts")
+    # "half of a generic argument list": type text is only ever cut by depth-aware scans (rule shared with C05-D5)
+    from c05 import check_splitters
+    sub = Rule("C01-D4-no-rust-surface-syntax", "D4", "", "")
+    check_splitters(S, sub)
+    r4.instances += sub.instances
+    r4.discharged += sub.discharged
+    for v in sub.violations:
+        v.rule = r4.id
+        r4.violations.append(v)
+    r4.require_floor(6, "custom fall-through and splitter facts")
     rules.append(r4)
 
     # ---------------------------------------------------------------- D1
